@@ -15,6 +15,8 @@ from checks import c05
 S = load()
 
 PROPERTY = "C06"
+LEVEL_TEXT = 'Exploration: None-position algebra for arithmetic and comparisons, reductions against the None-free vector and the reference, mutual agreement of isna/dropna/fillna incl. nullable-declared vectors without None.'
+LEVEL_NOTE = 'fillna may reject values incompatible with the column kind (rule 4.5).'
 DESIGN_REF = "DESIGN.md §5 C06"
 ENGINE = "elementwise"
 TECHNIQUE = "property-based testing: vectors of every kind with a generated subset of positions set to None; oracle = None-position algebra (union for arithmetic, False for comparisons), reductions on the None-free vector, and mutual agreement of isna/dropna/fillna"
